@@ -89,6 +89,26 @@ def batch_table():
     return T
 
 
+def gimbal_lock_matrix():
+    """a rotation matrix at pitch exactly +-90 degrees, as the library itself builds it from a quaternion, whose extreme element has
+    rounded one or two ulp beyond +-1 (about half of such quaternions give one); None if the search finds none"""
+    best = None
+    for i in range(200):
+        r, y = 0.1 + 0.037 * i, -1.3 + 0.0291 * i
+        for pitch in (0.5 * math.pi, -0.5 * math.pi):
+            q = np.asarray(QUA.Quaternion(rpy=np.array([r, pitch, y])), dtype=float)
+            for R in (np.asarray(QUA.Quaternion(q).to_DCM(), dtype=float), np.asarray(QUA.Quaternion(q).to_DCM(), dtype=float).T.copy()):
+                # the element the roll-pitch-yaw extraction takes the arcsine of
+                if abs(R[0, 2]) > 1.0:
+                    try:
+                        DCMM.DCM(R.copy())
+                    except Exception:  # noqa
+                        continue
+                    return R
+                best = R if best is None else best
+    return best
+
+
 def synth(fn, variant, skip_first=0):
     T = gen_table(variant) if variant < 2 else batch_table()
     try:
@@ -179,7 +199,7 @@ def observe(label, call, args, t, events, state=None, other_args=None):
             owners = [v for v in a.values() if isinstance(v, np.ndarray)] + [getattr(a.get("self"), nm, None) for nm in ("A", "array")]
             own = [x for x in rets if not any(isinstance(w, np.ndarray) and np.shares_memory(x, w) for w in owners)]
             held = [cid(np.array(x)) for x in own]
-            if own and other_args is not None:
+            if (own or "one object" in label) and other_args is not None:
                 b = {k: (v.copy() if (isinstance(v, np.ndarray) and k != "self") else v) for k, v in other_args.items()}
                 if "self" in a:
                     b["self"] = a["self"]
@@ -241,9 +261,12 @@ def catalogue():
     T0 = gen_table(0)
     ctor = {"Quaternion": (QUA.Quaternion, {"q": T0["q"] * 2.0}), "QuaternionArray": (QUA.QuaternionArray, {"q": np.array([g_unit(U1), -g_unit((30, 10, -20, 11)), g_unit(U2), g_unit((2, -1, 0, 3))]) * 2.0}),      # rows 1-2: a sign jump
             "DCM": (DCMM.DCM, {"array": T0["R1"]})}
+    gl = gimbal_lock_matrix()
+    if gl is not None:
+        ctor["DCM[at gimbal lock]"] = (DCMM.DCM, {"array": gl})
     for cname, (cls, cargs) in ctor.items():
         items.append(("%s()" % cname, (lambda a, cls=cls: np.asarray(cls(**a))), cargs))
-        for kwname, val in (("dcm", T0["R1"]), ("rpy", T0["angles"])) if cname == "Quaternion" else ((("DCM", T0["DCM"]), ("rpy", T0["Angles"])) if cname == "QuaternionArray" else
+        for kwname, val in () if cname.startswith("DCM[") else (("dcm", T0["R1"]), ("rpy", T0["angles"])) if cname == "Quaternion" else ((("DCM", T0["DCM"]), ("rpy", T0["Angles"])) if cname == "QuaternionArray" else
                                                                                                (("q", T0["q"] * 2.0), ("rpy", T0["angles"]), ("axang", None))):
             if val is None:
                 continue
@@ -325,7 +348,7 @@ def catalogue():
             # ONE object asked twice: estimators whose single-sample methods carry no state between calls (Mahony's bias and the
             # Kalman covariances are carried by design; OLEQ starts from a random quaternion) must answer the same again
             if cname not in ("Mahony", "EKF", "UKF", "OLEQ"):
-                for variant, opts in ((0, {}), (1, {"adaptive": True} if cname == "AQUA" else {})):
+                for variant, opts in ((0, {}), (1, {"adaptive": True} if cname == "AQUA" else ({"gain": 0.5} if cname == "Madgwick" else {}))):
                     margs2 = synth(m, variant, skip_first=1)
                     if margs2 is None:
                         continue
@@ -363,6 +386,9 @@ def run(chk):
 
     def other_of(label, args):
         """arguments of the same callable with OTHER contents: the other variant, or the arrays rearranged (rolled / transposed / reversed)"""
+        if "one object" in label and isinstance(args.get("mag"), np.ndarray):
+            # between the two identical calls the same object is handed a sample whose magnetometer has dropped out
+            return dict(args, mag=np.zeros_like(args["mag"]))
         alts = [x for x in by_base.get(_re.sub(r"\[\d\]$", "", label), []) if x is not args]
         if alts and set(alts[0]) == set(args):
             return alts[0]
